@@ -356,13 +356,15 @@ private:
 
     ~MemorySlot() { delete symbol; }
 
+    /* the value of a variable is owned by the variable from the start (LVALUE),
+     * else an operator would write its result into the unassigned variable */
     explicit MemorySlot(const Symbol& s)
     : value(s)
-    , symbol(new Symbol(s)) { }
+    , symbol(new Symbol(s)) { value.to_lvalue(true); }
 
     explicit MemorySlot(Symbol&& s)
     : value(s)
-    , symbol(new Symbol(std::move(s))) { }
+    , symbol(new Symbol(std::move(s))) { value.to_lvalue(true); }
 
     explicit MemorySlot(const MemorySlot& m)
     : value(std::move(m.value.clone().to_lvalue(true)))
